@@ -10,6 +10,7 @@ import JV.Drv.JsonText
 import JV.Drv.Source
 import JV.Drv.Binary
 import JV.Drv.Dom
+import JV.Drv.JsonPath
 open JV Drv
 
 def dispatch (line : String) : String :=
@@ -23,6 +24,7 @@ def dispatch (line : String) : String :=
   | "src" :: rest => sourceLine rest
   | "bin" :: rest => binaryLine rest
   | "dom" :: rest => domLine rest
+  | "jp" :: rest => jpLine rest
   | [] => ""
   | _ => "bad-op"
 
